@@ -85,10 +85,14 @@ RULE = ("generated engines over every registered term class (incl. Discrete, Lin
         "weight decision, a non-default parameter, or a rejected text; distinct = distinct canonical case")
 RULE += (" Engines whose descriptions hold runs of blanks, tabs, colons and punctuation and whose Function formulas are spaced out (drawn after the other families).")
 RULE += (" Stream `configure` (fv/streams/wave5x.py): Engine.configure with None / registered names / unregistered names / objects for each of the six operators, against Op.Engine.configure; after a raise no operator of the engine may have changed.")
+RULE += (" Histories of 2-6 imports with one FllImporter and one FllExporter object (texts cut at any character / inside the key of every line / between lines, lines without `key: value`, unknown keys, bad values, mutated texts, then a valid text): every import against a new importer.  Engines and single terms whose identifiers hold letters and digits outside ASCII (str.isalnum / str.isnumeric classes), referred to by rules and formulas.  Both drawn last, judged on the implementation.")
 ASSUMPTIONS = ["CPython float(text) / format(x, '.df') and the nearest-double step are trusted (the model's numbers after an import are "
                "exact decimals); heights / weights whose printed form is at exact distance atol from 1 (0.999 at 3+ decimals) are "
                "compared on the implementation only (float64 and exact arithmetic disagree on is_close there)",
-               "rules stay enabled (Rule.enabled has no FLL syntax); engines are built with Python float parameters"]
+               "rules stay enabled (Rule.enabled has no FLL syntax); engines are built with Python float parameters",
+               "the model reads str.isalnum / str.isnumeric as the ASCII classes (the code tie of Op.as_identifier holds for any "
+               "classes): names with letters or digits outside ASCII are judged by the property oracle on the implementation only; "
+               "a re-used importer / exporter object is compared with a new one on the implementation (the model has no object state)"]
 LEVEL_TEXT = ("Lean theorems over a token-level model of FllExporter / FllImporter driven by the regenerated class tables: "
               "fmt_idempotent; round trip of every layer (term parameters+height for all classes, operators, defuzzifier, "
               "activation, rule+weight, input / output variable, rule block); import_export_structure (import(export e) = canon e); "
@@ -153,6 +157,8 @@ def key(case) -> str:
         if f11_zone(G.unhex(case["spec"]["weight"]), d):
             return f"f11:d={d}:Rule"
         return f"rule:d={d}"
+    if k == "reuse":
+        return f"reuse:d={d}:" + ">".join(s_["label"].split(" of ")[0] for s_ in case["texts"])
     if k == "text":
         ws = [float(m) for m in re.findall(r"(?<![\w.])[-+]?\d+\.\d+(?![\w.])", case["text"])]
         if any(f11_zone(w, d) for w in ws):
@@ -194,6 +200,8 @@ def structure_diff(e, e2, d: int, exact: bool):
                 return f"{w}: class {type(t).__name__} vs {type(t2).__name__}"
             if fl.Op.as_identifier(t.name) != t2.name:
                 return f"{w}: name {t2.name!r}"
+            if G.is_identifier(t.name) and t2.name != t.name:
+                return f"{w}: the name is an identifier and comes back as {t2.name!r}"
             if isinstance(t, fl.Function):
                 if t.formula != t2.formula:
                     return f"{w}: formula {t.formula!r} vs {t2.formula!r}"
@@ -300,6 +308,8 @@ def oracle_(case):
             return oracle_text(case, d)
         if k == "term":
             return oracle_term(case, d)
+        if k == "reuse":
+            return oracle_reuse(case, d)
         if k == "defuzzifier":
             x = G.build_defuzz(case["spec"])
             p = fl.FllExporter().defuzzifier(x)
@@ -452,7 +462,174 @@ def oracle_term(case, d):
         return False, f"term {line!r} is re-exported as {line2!r}"
     if type(t) is not type(t2):
         return False, f"term class changed: {line!r}"
+    if G.is_identifier(t.name) and t2.name != t.name:
+        return False, f"the term's name {t.name!r} is an identifier and comes back as {t2.name!r} ({line!r})"
     return True, "ok"
+
+
+# --------------------------------------------------------------------------------------------- one importer, many imports
+# "For every engine, exporting ..., importing the text and exporting again reproduces the same text" and "any text the importer
+# accepts is normalised ... to a fixed point": the property quantifies over engines and texts, not over what the importer and
+# exporter OBJECTS were used for before.  A program that loads several files keeps one FllImporter / FllExporter; some of the
+# files are broken (truncated, a line that is not `key: value`, an unknown key, a bad value).  Whatever happened in the earlier
+# imports - accepted or rejected, and rejected at whatever place - every import must give what a new importer gives for the
+# same text: the same acceptance, the same engine (structure and exported text).
+
+def import_outcome(importer, exporter, text):
+    try:
+        e = importer.from_string(text)
+    except Exception as ex:  # noqa: BLE001
+        return ("rejected", type(ex).__name__, str(ex)[:160])
+    return ("accepted", exporter.to_string(e), C.sx(G.m_engine(e)))
+
+
+def oracle_reuse(case, d):
+    importer, exporter = fl.FllImporter(), fl.FllExporter()
+    for i, step in enumerate(case["texts"]):
+        text = step["text"]
+        fresh = import_outcome(fl.FllImporter(), fl.FllExporter(), text)
+        got = import_outcome(importer, exporter, text)
+        before = ", ".join(f"{s_['label']}" for s_ in case["texts"][:i]) or "nothing"
+        where = f"import {i + 1} ({step['label']}) with an importer / exporter already used for: {before}"
+        if got[0] != fresh[0]:
+            return False, f"{where}: {got[0]} ({got[1][:120]!r}) whereas a new importer gives: {fresh[0]} ({fresh[1][:120]!r})"
+        if got[0] == "accepted" and got[1] != fresh[1]:
+            return False, f"{where}: the exported text differs from that of a new importer: " + first_diff(fresh[1], got[1])
+        if got[0] == "accepted" and got[2] != fresh[2]:
+            return False, f"{where}: the imported engine differs in structure from that of a new importer"
+        if got[0] == "rejected" and got[1] != fresh[1]:
+            return False, f"{where}: rejected with {got[1]} whereas a new importer rejects with {fresh[1]}"
+    return True, "ok"
+
+
+BREAKS = ["cut-char", "cut-before-colon", "cut-line", "colonless-line", "unknown-key", "bad-value", "mutated", "valid", "empty",
+          "header-only"]
+
+
+def break_text(rng, text, d, how):
+    """a text derived from a valid one that fails (or not) at one kind of place; returns (label, text)"""
+    lines = text.split("\n")
+    body = [i for i, l in enumerate(lines) if l.startswith("  ")]
+    if how == "cut-char":          # a file cut anywhere: inside a key, a value, a number, between lines
+        return how, text[:rng.randrange(1, len(text))]
+    if how == "cut-before-colon":  # a file cut inside the key of a line: the last line has no `key: value` form
+        i = rng.randrange(len(lines))
+        j = lines[i].find(":")
+        return how, "\n".join(lines[:i] + [lines[i][:max(j, 1)]])
+    if how == "cut-line":          # a file cut between two lines: a valid text of a smaller engine, or a block without its end
+        return how, "\n".join(lines[:rng.randrange(1, len(lines) + 1)])
+    if how == "colonless-line":
+        i = rng.randrange(len(lines) + 1)
+        return how, "\n".join(lines[:i] + [rng.choice(["  enabled true", "garbage", "InputVariable x", "  term t Triangle 0 1 2"])] + lines[i:])
+    if how == "unknown-key" and body:
+        i = rng.choice(body)
+        return how, "\n".join(lines[:i] + ["  colour: red"] + lines[i:])
+    if how == "bad-value" and body:
+        i = rng.choice(body)
+        k = lines[i].strip().split(":")[0]
+        return how, "\n".join(lines[:i] + [f"  {k}: ?"] + lines[i + 1:])
+    if how == "mutated":
+        t, label = mutate_text(rng, text, d)
+        return "mutated:" + label, t
+    if how == "empty":
+        return how, rng.choice(["", "\n", "# nothing\n"])
+    if how == "header-only":
+        return how, rng.choice(["Engine: x", "Engine: x\nInputVariable: a", "OutputVariable: o\n  enabled: true", "RuleBlock: r"])
+    return "valid", text
+
+
+def reuse_cases(ctx):
+    """histories of 2-6 imports with ONE importer and ONE exporter: texts of one or two generated engines, each broken at a
+    random kind of place (or left valid), and a valid text at the end.  The first engines of the stream are also cut inside
+    the key of EVERY line in turn (a truncated file ends at any line), each followed by the valid text."""
+    rng = ctx.rng
+    for i in range(ctx.scale(70, 700)):
+        d = 1 + (i % 9)
+        with fl.settings.context(decimals=d), np.errstate(all="ignore"):
+            valid = [export(G.build(G.gen_engine_spec(rng, d, mode="grid", representable=True, size="small")))
+                     for _ in range(rng.choice([1, 2, 2]))]
+        steps = []
+        for _ in range(rng.randrange(1, 6)):
+            label, text = break_text(rng, rng.choice(valid), d, rng.choice(BREAKS))
+            steps.append({"label": label, "text": text})
+        steps.append({"label": "valid", "text": rng.choice(valid)})
+        yield {"kind": "reuse", "decimals": d, "texts": steps}
+        if i < ctx.scale(2, 12):
+            lines = valid[0].split("\n")
+            for j, line in enumerate(lines):
+                cut = "\n".join(lines[:j] + [line[:max(line.find(":"), 1)]])
+                yield {"kind": "reuse", "decimals": d, "texts": [{"label": f"cut-before-colon of line {j + 1}", "text": cut},
+                                                                 {"label": "valid", "text": valid[-1]}]}
+
+
+def shrink_reuse(case):
+    """fewest imports that still fail (the last one is kept), then the shortest failing prefix"""
+    cur = case
+    i = 0
+    while len(cur["texts"]) > 1 and i < len(cur["texts"]) - 1:
+        cand = dict(cur, texts=cur["texts"][:i] + cur["texts"][i + 1:])
+        if not oracle(cand)[0]:
+            cur = cand
+        else:
+            i += 1
+    for n in range(1, len(cur["texts"])):
+        cand = dict(cur, texts=cur["texts"][:n])
+        if not oracle(cand)[0]:
+            return cand
+    return cur
+
+
+# --------------------------------------------------------------------------------------------- identifiers of any alphabet
+def wide_name_cases(ctx):
+    """the quantifier's "identifier names": engines as in `engine_cases` whose variables and terms carry identifiers with
+    letters and digits outside ASCII (`G.rename_identifiers`), referred to by the rules and the Function formulas; single
+    terms with such names.  The same oracle as every engine / term case; the names must come back unchanged."""
+    rng = ctx.rng
+    classes = list(G.term_classes())
+    for i in range(ctx.scale(45, 600)):
+        d = 1 + (i % 9)
+        rep = i % 3 == 0
+        spec = G.gen_engine_spec(rng, d, mode="grid" if rep else "float", representable=rep,
+                                 force_terms=[classes[i % len(classes)]] + (["Function"] if i % 2 else []), size="small")
+        G.rename_identifiers(rng, spec)
+        case = {"kind": "engine", "decimals": d, "spec": spec, "representable": rep}
+        if rep:
+            case["rows"] = G.input_rows(rng, spec, ctx.scale(3, 8))
+        yield case
+        first, rest = G.IDENT_FIRST_WIDE + G.IDENT_FIRST, G.IDENT_REST_WIDE + G.IDENT_REST
+        yield {"kind": "term", "decimals": d,
+               "spec": G.gen_term(rng, classes[i % len(classes)], G.ident(rng, set(), first=first, rest=rest), d, "grid", ["a", "b"], False)}
+
+
+def later_families(ctx):
+    """families added after the model batch (their random choices are drawn after every other stream of the check); judged by
+    the property oracle on the implementation"""
+    st = ctx.stats
+    out = []
+    for case in reuse_cases(ctx):
+        with np.errstate(all="ignore"):
+            ok, detail = oracle(case)
+        st.count("reuse-" + "+".join(sorted({s_["label"].split(":")[0].split(" of ")[0] for s_ in case["texts"][:-1]}))[:60])
+        st.count("oracle-reuse")
+        st.case(("reuse", case["decimals"], json.dumps(case["texts"], sort_keys=True)), True)
+        if not ok:
+            small = shrink_reuse(case)
+            out.append({"case": small, "violation": True, "detail": oracle(small)[1], "what": oracle(small)[1]})
+            if len(out) > 10:
+                return out
+    for case in wide_name_cases(ctx):
+        with np.errstate(all="ignore"):
+            ok, detail = oracle(case)
+        st.count("wide-names-" + case["kind"])
+        st.case(("wide", case["kind"], case["decimals"], json.dumps(case["spec"], sort_keys=True)), True)
+        if not ok:
+            if case["kind"] == "engine":
+                case = shrink_engine(case, lambda c: not oracle(c)[0])
+                detail = oracle(case)[1]
+            out.append({"case": case, "violation": True, "detail": detail, "what": detail})
+            if len(out) > 10:
+                return out
+    return out
 
 
 def first_diff(a: str, b: str) -> str:
@@ -475,7 +652,7 @@ def referenced(spec):
     for v in spec["inputs"] + spec["outputs"]:
         for t in v["terms"]:
             if t["cls"] == "Function":
-                words |= set(re.findall(r"[A-Za-z_]\w*", t["formula"]))
+                words |= set(re.findall(r"[^\W\d]\w*", t["formula"]))
     return words
 
 
@@ -1010,6 +1187,8 @@ def correspond(ctx):
     probes(ctx)
     # Engine.configure against Op.Engine.configure (model of the code tie `code_engineConfigure`)
     mism += S_W5.run_configure(ctx)
+    # one importer used for several imports; identifiers of any alphabet (both drawn after everything above)
+    mism += later_families(ctx)
     return mism
 
 
@@ -1047,4 +1226,6 @@ def search(ctx):
                     case = shrink_engine(case, lambda c: not oracle(c)[0])
                     d = oracle(case)[1]
                 return [(case, d)]
+    for m in later_families(ctx):
+        return [(m["case"], m["detail"])]
     return []
